@@ -41,8 +41,10 @@ def retry_history(rng, cfg):
                 t = now
             t = max(t, now)
             now = t
-            putfail = rng.random() < 0.06
-            ops.append('op wpass %d %d %s%s' % (s, now, pipeline.rnd40(rng), ' putfail' if putfail else ''))
+            mode = rng.choice(['', '', '', '', '', '', '', ' tick', ' tick', ' putfail'])
+            ops.append('op wpass %d %d %s%s' % (s, now, pipeline.rnd40(rng), mode))
+            if mode == ' tick':
+                now += len(live) + 1          # the clock has moved by one second per transmission
             if exp is None or now >= exp:
                 exp = now + ri
             x = rng.random()
